@@ -88,6 +88,8 @@ impl TcpStreamConnect {
 
             // clear the io_flag
             self.io_data.io_flag.store(0, Ordering::Relaxed);
+            #[cfg(may_verif)]
+            crate::verif::syscall();
 
             match self.stream.connect(&self.addr.into()) {
                 Ok(_) => return Ok(convert_to_stream(self)),
